@@ -106,6 +106,17 @@ def _contract_case(draw):
         if new:
             c["g"].insert(draw(st.integers(0, len(c["g"]))), new)
             planted.append("combo")
+    if draw(st.integers(0, 2)) == 0 and len(ins) >= 2:
+        # a guarantee that is redundant only through a chain of assumptions over an input the guarantees never mention
+        x, y = ins[0], ins[1]
+        o = outs[0]
+        c["g"] = [t for t in c["g"] if y not in t[0]]
+        hi = float(w[y] + draw(st.sampled_from([0, 1, 2])))
+        c["a"] = c["a"] + [[{x: 1.0, y: -1.0}, float(w[x] - w[y] + draw(st.sampled_from([0, 1])))], [{y: 1.0}, hi]]
+        ca = c["a"][-2][1]
+        gb = float(w[o] - w[x] + draw(st.sampled_from([0, 1])))
+        c["g"] = c["g"] + [[{o: 1.0, x: -1.0}, gb], [{o: 1.0}, gb + ca + hi + draw(st.sampled_from([1, 2, 0.5]))]]
+        planted.append("chain-via-assumptions")
     return {"kind": "contract", "c": c, "planted": planted, "numclass": "small",
             "via": draw(st.sampled_from(["constructor", "simplify-method"]))}
 
